@@ -306,9 +306,32 @@ def r4(ctx: Ctx) -> None:
     nfl = get_flow(proj, nm)
 
     def modifier_guards(f_, fl_):
+        """what is known to hold when check_all_conditions is evaluated: the guards of its statement, the operands in front of it in a short-circuit
+        `a and call` / `a or call`, and - for a guard that is a flag - what the flag was computed from"""
+        from ..cfg import conj_atoms
         out = []
         for c in fl_.calls('check_all_conditions'):
-            g_ = frozenset((t.replace(' ', ''), tr) for t, tr in fl_.cfg.guard_literals(fl_.stmt_of(c)) if 'parsed' in t)
+            st = fl_.stmt_of(c)
+            atoms = list(fl_.cfg.guard_atoms(st))
+            child = c
+            for a_ in ancestors(c):
+                if isinstance(a_, ast.stmt):
+                    break
+                if isinstance(a_, ast.BoolOp):
+                    idx = next((i_ for i_, v_ in enumerate(a_.values) if v_ is child), 0)
+                    for v_ in a_.values[:idx]:
+                        atoms += conj_atoms(v_, isinstance(a_.op, ast.And))
+                child = a_
+            flat = []
+            for at_, tr_ in atoms:
+                if isinstance(at_, ast.Name):
+                    ds_ = [d_ for d_ in fl_.cfg.defs_reaching(st, at_.id) if d_ != 'param']
+                    v_ = getattr(fl_.cfg.stmt.get(ds_[0]), 'value', None) if len(ds_) == 1 else None
+                    if v_ is not None and not isinstance(v_, ast.Constant):
+                        flat += conj_atoms(v_, tr_)
+                        continue
+                flat.append((at_, tr_))
+            g_ = frozenset((src(at_).replace(' ', ''), tr_) for at_, tr_ in flat if 'parsed' in src(at_))
             out.append((g_, ' and '.join(sorted(('' if tr else 'not ') + t for t, tr in g_))))
         return out
     ga, gb = modifier_guards(nm, nfl), modifier_guards(ed, fl)
